@@ -206,17 +206,17 @@ theorem adv_rootEnd (r : Root) (how : TS) (s' : State) (hi : internal s (.rootEn
   have hshape : s'.st = upd s.st (.root r) how ∧ s'.rt = s.rt ∧ s'.now = s.now ∧ s'.sc = s.sc ∧ s'.core = s.core
       ∧ s'.waiter = s.waiter ∧ s'.orphans = s.orphans ∧ s'.nSubs = s.nSubs ∧ s'.kind = s.kind
       ∧ s'.withdrawn = s.withdrawn ∧ s'.nWorkers = s.nWorkers ∧ s'.wk = s.wk ∧ s'.nDaemons = s.nDaemons
-      ∧ s'.dm = s.dm := by
+      ∧ s'.dm = s.dm ∧ s'.orchPing = s.orchPing := by
     simp only [step] at hstep
     split at hstep
     · repeat' (split at hstep)
       all_goals (first | (cases hstep; done) | skip)
       all_goals (cases hstep; simp)
     · cases hstep
-  obtain ⟨e1, e2, e3, e4, e5, e6, e7, e8, e9, e10, e11, e12, e13, e14⟩ := hshape
+  obtain ⟨e1, e2, e3, e4, e5, e6, e7, e8, e9, e10, e11, e12, e13, e14, e15⟩ := hshape
   have := mRoots_upd_lt s.st r how hpot
   have h2 := mSubs_upd_root s.nSubs s.st s.kind s.withdrawn r how
-  simp only [mu, e1, e2, e3, e4, e5, e6, e7, e8, e9, e10, e11, e12, e13, e14]; omega
+  simp only [mu, e1, e2, e3, e4, e5, e6, e7, e8, e9, e10, e11, e12, e13, e14, e15]; omega
 
 theorem adv_rootStopping_observer (hne : s.rt ≠ .exited) (r : Root) (hk : r.kind = .observer)
     (hst : s.st (.root r) = .running) (hc : s.creq (.root r) = true) : Advance cfg s := by
@@ -251,6 +251,14 @@ theorem adv_rootStopping_orch (hne : s.rt ≠ .exited) (hst : s.st (.root .orche
   · simp [step, hne, hst, Root.kind, hc]
   · exact mu_root_lt .orchestrator (.stopping s.orchErr none) (upd (cancelSubs s) (.root .orchestrator) false)
       s.rootFailed s.tFail s.killed s.stopReq s.failWho (some s.now) (by rw [hst]; simp [rootPot])
+
+/-- the second of the orchestrator's two exit stops: the streams are over, the keep-alives are cancelled -/
+theorem adv_orchStopPingers (hne : s.rt ≠ .exited) (f : Bool) (dl : Option Nat)
+    (hst : s.st (.root .orchestrator) = .stopping f dl) (hop : s.orchPing = false) (hns : noLiveStream s = true) :
+    Advance cfg s := by
+  apply Advance.mk .orchStopPingers { s with creq := cancelPingers s, orchPing := true } rfl (by intro n h; cases h)
+  · simp [step, hne, hop, hns, hst]
+  · simp only [mu, hop]; simp
 
 /-! ### ensemble tasks -/
 
